@@ -1,7 +1,7 @@
 (* C07 — Reports enter only an open round; each round aggregates exactly once.
    Property theorems only; proofs live in Proofs/OracleRoundProofs.v and Proofs/OracleRoundInv.v. *)
 From Coq Require Import ZArith List Bool String Permutation.
-From Verif Require Import Base.Harness Model.OracleRound Model.OracleRoundCheck Proofs.OracleRoundProofs Proofs.OracleRoundInv.
+From Verif Require Import Base.Harness Model.OracleRound Model.OracleRoundCheck Proofs.OracleRoundProofs Proofs.OracleRoundInv Proofs.OracleRoundDistinct.
 Import ListNotations.
 Open Scope Z_scope.
 
@@ -84,6 +84,23 @@ Theorem C07_rotation s h k s' : cycle_ok s -> rotate s h k = Some s' ->
   s' = s \/ (open_window_p s h = false /\ o_seq s' = (o_seq s + 1) mod Z.of_nat (List.length (o_cycle s)) /\ o_cycle s' = o_cycle s).
 Proof. exact (rotate_spec s h k s'). Qed.
 Print Assumptions C07_rotation.
+
+(* the hypothesis closing_distinct is an invariant: along every well-scheduled history (operations of
+   height H, then the end blocker of H; report windows of at least one block; no end blocker failing) a
+   second round of a query exists only for a bridge deposit whose earlier round closes in the very block in
+   which the later one was opened, so no two rounds of one query ever close in the same block *)
+Theorem C07_closing_distinct_all_histories qinfos ops s H s' :
+  kinv s H -> sched H ops -> run_opt qinfos s ops = Some s' ->
+  kinv s' (height_after H ops) /\ closing_distinct (height_after H ops) (o_queries s') /\ run qinfos s ops = s'.
+Proof.
+  intros K Hs E. pose proof (run_kinv qinfos ops s H s' K Hs E) as K'.
+  exact (conj K' (conj (kinv_closing_distinct s' _ K') (run_opt_run qinfos ops s s' E))).
+Qed.
+Print Assumptions C07_closing_distinct_all_histories.
+
+Theorem C07_closing_distinct_initially cycle sw bw H : 1 <= sw -> 1 <= bw -> kinv (genesis cycle sw bw) H.
+Proof. exact (genesis_kinv cycle sw bw H). Qed.
+Print Assumptions C07_closing_distinct_initially.
 
 (* non-vacuity: a concrete history (tip, two reports of one reporter, the closing end blocker) *)
 Example C07_example :
